@@ -13,7 +13,10 @@ EXPLAIN = ('ITS deploy_remote_interchain_token / deploy_remote_canonical_token: 
            'symbol non-empty on those very values; (R4) the `as u8` narrowing of decimals is therefore guarded by <= 255; '
            '(R5) the announced message is DeployInterchainToken{token_id: id, name, symbol, decimals, minter: empty} of those '
            'terms, the started-event carries the same terms, and the outbound rules of C05.R4 hold (trusted destination, same '
-           'payload to gas service and gateway, payer = caller/spender, gas_token parameter); (R6) no token-moving call.')
+           'payload to gas service and gateway, payer = caller/spender, gas_token parameter); (R6) no token-moving call; (R7) the clauses that '
+           'live elsewhere are evaluated too: gas service pay_gas (C14), gateway call_contract (C13), codec encode side (C10), id derivations '
+           '(C11.R1), and "currently trusted": TrustedChain(_) is set / removed only by its owner-authorised entries, removal really removes the '
+           'entry the outbound guard tests, is_trusted_chain reports presence (C04.R2).')
 NOT_DECIDED = 'honesty of the registered token\'s metadata getters (T8); byte-exact ABI encoding (T7).'
 ASSUME = ['T1', 'T2', 'T3', 'T6', 'T7', 'T8']
 
@@ -106,6 +109,10 @@ def check(P, rep):
     include_rules(P, rep, 'C18.R7', 'c13', lambda o: True, 'gateway announces exactly the payload it was given', 5)
     include_rules(P, rep, 'C18.R7', 'c10', lambda o: o['rule'] in ('C10.R4',) or (o['rule'] in ('C10.R2', 'C10.R3', 'C10.R8') and 'encod' in o['what'] + (o.get('key') or '')),
                   'the announced payload is the ITS wire encoding of the deploy message (codec encode side, layouts)', 10)
+    include_rules(P, rep, 'C18.R7', 'c04', lambda o: o['rule'] == 'C04.R2' and any(x in o['what'] for x in
+                                                                          ('TrustedChain(chain) before every success exit', 'TrustedChain(_) is set / removed only under',
+                                                                           'is_trusted_chain returns presence')),
+                  '"currently trusted" destination: the trust set changes exactly as its two owner-only admin entries say, and removal really removes the entry the outbound guard tests', 5)
     include_rules(P, rep, 'C18.R7', 'c11', lambda o: o['rule'] == 'C11.R1', 'token ids are the documented domain-separated derivations (C11.R1)', 8)
     check_entry(P, rep, 'deploy_remote_interchain_token', 1, 3, 4, lambda g, s: is_deploy_salt(s, g.P(1), g.P(2)), True)
     g = check_entry(P, rep, 'deploy_remote_canonical_token', 3, 2, 4, lambda g, s: is_canonical_salt(s, g.P(1)), False)
